@@ -2,7 +2,8 @@
 #![feature(allocator_api)]
 use vstd::prelude::*;
 use std::collections::BTreeSet;
-use std::collections::btree_set::Iter;
+use std::collections::btree_set::Iter as BTreeSetIter;
+use std::slice::Iter;
 use std::ops::Index;
 use core::cmp::Ordering;
 use vstd::std_specs::iter::IteratorSpec;
@@ -54,7 +55,7 @@ pub proof fn lemma_symbol_index_is_a_btree_key()
 
 // `for x in &set` goes through <&BTreeSet as IntoIterator>::into_iter, for which vstd has no contract; std
 // implements it as self.iter(), so it is given the contract vstd has for BTreeSet::iter (assumed, listed).
-pub assume_specification<'a, K, A: std::alloc::Allocator + Clone> [ <&'a BTreeSet<K, A> as IntoIterator>::into_iter ] (s: &'a BTreeSet<K, A>) -> (r: Iter<'a, K>)
+pub assume_specification<'a, K, A: std::alloc::Allocator + Clone> [ <&'a BTreeSet<K, A> as IntoIterator>::into_iter ] (s: &'a BTreeSet<K, A>) -> (r: BTreeSetIter<'a, K>)
     ensures vstd::std_specs::btree::key_obeys_cmp_spec::<K>() ==> {
         &&& r.remaining().unref().to_set() == s@
         &&& r.remaining().no_duplicates()
@@ -72,7 +73,40 @@ impl<T> vstd::std_specs::core::IndexSpecImpl<SymbolIndex> for SymbolVec<T> {
 //@  |             ensures *r == self.0@[index.0 as int],
 //@end
 
-//@struct GRM Grammar fields=empty_index
+// ---- ProdVec: text of create_index!(ProdIndex, ProdVec) ---------------------------------------------------------------
+//@macro PRD IDX create_index invoked_in=IDX index=ProdIndex collection=ProdVec
+//@struct PRD ProdIndex derive=Copy,Clone
+//@end
+//@struct PRD ProdVec
+//@end
+//@impl PRD /^impl < T > ProdVec < T >/
+//@  fn new ret=r
+//@  |                 ensures r.0@.len() == 0,
+//@  fn push
+//@  |                 ensures final(self).0@ == old(self).0@.push(value),
+//@end
+//@impl PRD /^impl < 'a , T > IntoIterator for & 'a ProdVec < T >/
+//@  type Item
+//@  type IntoIter
+//@  fn into_iter ret=r
+//@  |                 ensures r.remaining().len() == self.0@.len(),
+//@  |                     forall|i: int| 0 <= i < self.0@.len() ==> *r.remaining()[i] == self.0@[i],
+//@  |                     r.decrease() is Some,
+//@end
+
+//@allow external_body Production::rhs_symbols (map over res_symbol, which panics on an unresolved symbol): result taken as an uninterpreted function of the production
+//@struct GRM ResolvingAssignment fields=-
+//@end
+//@struct GRM Production fields=rhs
+//@end
+/// the resolved symbols of a production's right-hand side (what Production::rhs_symbols returns; R-XBODY: assumed pure)
+pub uninterp spec fn rhs_syms(p: &Production) -> Seq<SymbolIndex>;
+//@impl GRM /^impl Production \{?$|^impl Production$/ has=rhs_symbols
+//@  fn rhs_symbols ret=r xbody
+//@  |         ensures r@ == rhs_syms(self), r@.len() == self.rhs@.len(),
+//@end
+
+//@struct GRM Grammar fields=productions,empty_index
 //@end
 
 //@type TBL Firsts
@@ -149,6 +183,52 @@ pub proof fn lemma_first_seq_step(fs: Seq<Set<SymbolIndex>>, syms: Seq<SymbolInd
 //@  |             assert(empty == symbol_firsts@.contains(e));
 //@  |             if it.index() + 1 == symbols@.len() { assert(symbols@.skip(it.index() + 1).len() == 0); }
 //@  |         }
+//@end
+
+// ---- C03: right-nulled lengths ---------------------------------------------------------------------------------------
+pub open spec fn nullable(fs: Seq<Set<SymbolIndex>>, x: SymbolIndex, e: SymbolIndex) -> bool { fs[x.0 as int].contains(e) }
+
+/// k is the right-nulled length of a right-hand side: everything from k on can derive EMPTY, and k is the least such
+/// position ("the last symbol in the production where all the following symbols can reduce EMPTY").
+pub open spec fn is_rn_len(fs: Seq<Set<SymbolIndex>>, syms: Seq<SymbolIndex>, e: SymbolIndex, k: int) -> bool {
+    &&& 0 <= k <= syms.len()
+    &&& forall|i: int| k <= i < syms.len() ==> nullable(fs, #[trigger] syms[i], e)
+    &&& k > 0 ==> !nullable(fs, syms[k - 1], e)
+}
+
+//@fn TBL production_rn_lengths ret=r attr=verifier::loop_isolation(false)
+//@  |     requires
+//@  |         forall|p: int, i: int| 0 <= p < grammar.productions.0@.len() && 0 <= i < rhs_syms(&grammar.productions.0@[p]).len()
+//@  |             ==> (#[trigger] rhs_syms(&grammar.productions.0@[p])[i]).0 < first_sets.0@.len(),
+//@  |     ensures
+//@  |         r.0@.len() == grammar.productions.0@.len(), // [C03]
+//@  |         forall|p: int| 0 <= p < r.0@.len() ==> is_rn_len(fs_view(first_sets), rhs_syms(&grammar.productions.0@[p]), grammar.empty_index, #[trigger] r.0@[p] as int), // [C03]
+//@  before 1 "let mut prod_rn_lens = ProdVec::new();"
+//@  |     proof { lemma_symbol_index_is_a_btree_key(); }
+//@  |     let ghost fs = fs_view(first_sets);
+//@  |     let ghost e = grammar.empty_index;
+//@  loop 1 iter=it
+//@  |         invariant
+//@  |             it.seq().len() == grammar.productions.0@.len(),
+//@  |             forall|i: int| 0 <= i < it.seq().len() ==> *it.seq()[i] == grammar.productions.0@[i],
+//@  |             prod_rn_lens.0@.len() == it.index(),
+//@  |             forall|p: int| 0 <= p < prod_rn_lens.0@.len() ==> is_rn_len(fs, rhs_syms(&grammar.productions.0@[p]), e, #[trigger] prod_rn_lens.0@[p] as int),
+//@  after 1 "let mut rn_len = production.rhs.len();"
+//@  |         let ghost syms = rhs_syms(production);
+//@  |         proof { assert(*production == grammar.productions.0@[it.index()]); }
+//@  loop 2 iter=it2
+//@  |             invariant
+//@  |                 it2.seq().len() == syms.len(),
+//@  |                 forall|i: int| 0 <= i < it2.seq().len() ==> *it2.seq()[i] == syms[syms.len() - 1 - i],
+//@  |                 // `for` loops take no invariant_except_break: both clauses also hold at the break
+//@  |                 rn_len + it2.index() == syms.len(),
+//@  |                 forall|i: int| rn_len <= i < syms.len() ==> nullable(fs, #[trigger] syms[i], e),
+//@  after 1 "for symbol in production.rhs_symbols().iter().rev() {"
+//@  |             proof {
+//@  |                 assert(*symbol == syms[rn_len - 1]);
+//@  |                 assert(first_sets.0@[symbol.0 as int]@ == fs[symbol.0 as int]);
+//@  |             }
+//@  hoist 2 "production.rhs_symbols()" as rhs__
 //@end
 
 } // verus!
